@@ -1,7 +1,19 @@
 """Per-property claims rendered into MANIFEST.json by tools/mkmanifest.py."""
-HOOK_COMMITS = []
+HOOK_COMMITS = []   # no source hooks needed so far
+FIX_COMMITS = ["c62ee59 fix: pool parent loop leaves only when the done queue is drained (C12)"]
 PENDING = {}
 CLAIMS = {
+    "C12": {
+        "technique": "TLA+ spec of the pool (Pool.tla, one action per primitive), TLC exhaustive MC incl. liveness + TLC-simulated schedules replayed into the real Parallel.irun through a turn-based scheduler + event traces of the real code validated by a trace spec",
+        "text": "TLC explores every interleaving of parent loop x workers x task/done queues for N<=3 (thorough N<=5), quotas, raising tasks and both tolerate_fails modes: "
+                "NoDup, AllDelivered, RaiseJustified, NoSilentFailure and termination under per-process weak fairness hold; the pre-repair loop is kept as an instance that must "
+                "violate AllDelivered. Simulated behaviours are replayed grant by grant into the unmodified irun/pool_worker (mp replaced by a scheduler stand-in) with the abstract "
+                "state compared after every step; hundreds to thousands of seeded random schedules of the real code over an (n, pool, quota, raises, tolerate, bias) grid are recorded "
+                "as event traces and each event must be an enabled Pool action, with the P-layer evaluated on the final state; wall-clock runs through real multiprocessing are judged "
+                "on their outcome.",
+        "note": "Trusted: TLC; the thread-based multiprocessing stand-in and scheduler (vf/sched.py), cross-checked by real-process runs; no external kill of workers; "
+                "task_timeout never reached. Bounded: MC constants as listed in evidence; schedules beyond the sampled ones are not covered.",
+    },
     "C07": {
         "technique": "TLA+ spec (RuleLang.tla: word-level meaning of rule patterns, keys, negated forms), TLC MC of the language laws + TLC-enumerated (pattern,row) product replayed into annet's rule compilers + TLC trace judge",
         "text": "TLC checks the algebraic laws of the rule language (negated form recognised with the same key, double negation, key arity, word boundaries) on every "
